@@ -140,7 +140,10 @@ def main():
                 # every key of a partition must be loadable
             except Exception as e:
                 res = ["raise", type(e).__name__, str(e)[:60].split("\n")[0]]
-            sink.append(dict(call=[name, x], result=res, execs=len(c08fns.REC.calls) - before))
+            ran = c08fns.REC.calls[before:]
+            # executions of the called function itself, and of every function (nested calls included), each at most once
+            sink.append(dict(call=[name, x], result=res, execs=sum(1 for c in ran if c == (name, x)),
+                             nested_max=max([ran.count(c) for c in set(ran)] or [0])))
 
     with fsaudit.Recorder([root], fault=on_event):
         do_calls(spec.get("calls", []), out["results"])
